@@ -489,17 +489,10 @@ pub fn check_pool_history(case: &HistoryCase, l: &mut Local) -> Result<(), Strin
     Ok(())
 }
 
-use crate::history::tf_strategy;
 
 fn pool_history_case() -> BoxedStrategy<HistoryCase> {
-    (history_strategy(false, false, 30), tf_strategy(), tf_strategy())
-        .prop_map(|(mut h, tf1, tf2)| {
-            h.spec.mint_kind = 3;
-            h.spec.tf1 = tf1;
-            h.spec.tf2 = tf2;
-            h
-        })
-        .boxed()
+    // current schedules plus (3 in 5) a scheduled change that is pending or already in force; SetTransferFee / AdvanceEpoch ops mid-history
+    with_fee_mints(history_strategy(false, false, 30))
 }
 
 fn fee_pool_bounds_case() -> BoxedStrategy<super::c03::BoundsCase> {
@@ -518,7 +511,7 @@ pub fn def() -> CheckDef {
                among other TLV entries of a Token-2022 mint, any u64 amount; Anchor helpers (through a real InterfaceAccount<Mint>) and the Pinocchio ports (through a real \
                Pinocchio AccountInfo) must agree; excluded + fee == included; fee == the schedule in force (token program's calculate_fee as ground truth, cross-checked \
                with the harness's own arithmetic); the fee-included request z satisfies z - fee(z) == y and (z-1) - fee(z-1) < y (smallest, by monotonicity).  \
-               Instruction level (`pools` sub-check): pools over real Token-2022 fee mints, swaps / liquidity instructions judged on balances, withheld fees and events.  \
+               Instruction level (`pools` sub-check): pools over real Token-2022 fee mints (fee changes scheduled through the real SetTransferFee, pending or in force, epochs advancing mid-history), swaps / liquidity instructions judged on balances, withheld fees and events.  \
                Non-trivial = Ok result with a fee schedule present.",
         assumptions: vec!["H1 re-export hook for the Pinocchio copies", "the Clock sysvar is the harness's thread clock"],
         subs: vec![
